@@ -792,6 +792,65 @@ def standard_prims(repo):
     return "\n".join(out)
 
 
+def std_char(repo):
+    """`impl Distribution<char> for StandardUniform` (src/distr/standard.rs): the constant `GAP_SIZE`, the bounds of `Uniform::new(lo, hi)`
+    (an exclusive u32 range), the gap removal `if n < <c> { n -= GAP_SIZE; }`, and the two `return`s: `char::from_u32(n).unwrap()` under
+    `debug_assertions`, `char::from_u32_unchecked(n)` otherwise."""
+    text = re.sub(r"//[^\n]*", "", open(os.path.join(repo, "src/distr/standard.rs")).read())
+    m = re.search(r"impl\s+Distribution<char>\s+for\s+StandardUniform\s*\{", text)
+    if not m:
+        raise TranslateError("standard.rs: Distribution<char> not found")
+    depth, j = 1, m.end()
+    while depth:
+        depth += {"{": 1, "}": -1}.get(text[j], 0)
+        j += 1
+    blk = text[m.end():j - 1]
+    fm = re.search(r"fn\s+sample[^{]*\{", blk)
+    depth, k = 1, fm.end()
+    while depth:
+        depth += {"{": 1, "}": -1}.get(blk[k], 0)
+        k += 1
+    body = blk[fm.end():k - 1]
+    # the two returns, by their text (attributes are not statements of the translated subset)
+    tail = re.search(r"#\[cfg\(debug_assertions\)\]\s*return\s+char::from_u32\((\w+)\)\.unwrap\(\);\s*#\[cfg\(not\(debug_assertions\)\)\]\s*(?:#\[allow\(unsafe_code\)\]\s*)?"
+                     r"return\s+unsafe\s*\{\s*char::from_u32_unchecked\((\w+)\)\s*\};\s*$", body)
+    if not tail or tail.group(1) != tail.group(2):
+        raise TranslateError("standard.rs: the char sampler does not end in the checked / unchecked conversion of one value")
+    nvar = tail.group(1)
+    toks = retok(tokenize(body[:tail.start()]))
+    stmts, tl = P(toks).body()
+    if tl is not None or len(stmts) != 4:
+        raise TranslateError("standard.rs: the char sampler has %d statements" % len(stmts))
+    c, r, dn, gi = stmts
+    if not (c[0] == "const" and r[0] == "let" and r[1][0] == "pid" and r[2][0] == "call" and r[2][1] == "Uniform::new" and len(r[2][2]) == 2
+            and dn[0] == "let" and dn[1] == ("pid", nvar) and dn[2] == ("mcall", ("id", r[1][1]), "sample", [("id", "rand")])
+            and gi[0] == "if" and gi[3] is None and len(gi[2][1]) == 1 and gi[2][2] is None):
+        raise TranslateError("standard.rs: the char sampler is not `const G; let range = Uniform::new(a, b); let mut n = range.sample(rand); if .. { .. }`")
+    unit = Unit("Urandom.Generated.Scalar.standard", os.path.join(repo, "src/rng/util.rs"), [])
+
+    class F(LoopFn):
+        def __init__(self):
+            self.u, self.name, self.suffix = unit, "char", ""
+            self.params, self.ret = [], None
+            self.env, self.muts, self.sig = {}, [], []
+    fn = F()
+    fn.lines = []
+    g, _ = fn.expr(c[2], ("u", 32))
+    fn.env[c[1]] = ("var", "char_gap", ("u", 32))
+    lo, _ = fn.expr(r[2][2][0], ("u", 32))
+    hi, _ = fn.expr(r[2][2][1], ("u", 32))
+    fn.env[nvar] = ("var", "n", ("u", 32))
+    cond, cty = fn.expr(gi[1], None)
+    a = gi[2][1][0]
+    if not (a[0] == "assign" and a[1] == ("id", nvar)):
+        raise TranslateError("standard.rs: the gap removal does not assign the value")
+    v, _ = fn.expr(a[2], ("u", 32))
+    if fn.lines or cty != ("bool",):
+        raise TranslateError("standard.rs: char sampler expressions")
+    return ("namespace standard\ndef char_gap : BitVec 32 := %s\n\ndef char_bounds : BitVec 32 × BitVec 32 := (%s, %s)\n\n"
+            "def char_of (n : BitVec 32) : BitVec 32 :=\n  if %s then %s else n\nend standard\n" % (g, lo, hi, cond, v))
+
+
 def alnum(repo):
     """src/distr/alnum.rs: the table `ALNUM` (a byte string; its declared length must be its length) and one trip round the loop of
     `Distribution<char> for Alnum`: `let value = <expr of one next_u32>; if <cond> { break ALNUM[<idx>] as char; }` becomes
@@ -876,6 +935,7 @@ def generate(repo, out_dir, write):
                 parts.append(float01_samples(repo))
             if "standard" in members:
                 parts.append(standard_prims(repo))
+                parts.append(std_char(repo))
                 parts.append(alnum(repo))
             if "uniform_int" in members:
                 parts.append(uniform_int(repo)[0])
